@@ -4,10 +4,11 @@
    1 SEARCH : kind base n (opt ts)*n curOK t | errclass seq ts trace
    2 PATH   : kind n | statePath dataPath
    3 DECODE : kind cur n fileseq ts | ok seq ts
+   4 DECODEB: kind cur n body wf iseq (7 time fields) | outcome seq (7 time fields) txnMax txnMaxQueried
    codes: 1 = model <> implementation, 2 = property oracle fails on the observation,
           0 = case does not parse. *)
 From Coq Require Import ZArith List String Ascii Bool.
-From Verif Require Import Base.Wire C19.Model C19.Urls.
+From Verif Require Import Base.Wire C19.Model C19.Urls C19.Decode C19.DecodeGen.
 Import ListNotations.
 Open Scope Z_scope.
 Open Scope wire_scope.
@@ -76,12 +77,50 @@ Definition check_decode : P (list Z) :=
   let j2 := if consistent then ok && (seq =? n) && (ots =? ts) else true in
   ret (code_if j1 1 ++ code_if j2 2)%list.
 
+(* byte-level decoding of a state file *)
+Definition ptm : P tm :=
+  y <- pint ;; mo <- pint ;; d <- pint ;; h <- pint ;; mi <- pint ;; s <- pint ;; ns <- pint ;;
+  ret {| t_year := y; t_mon := mo; t_day := d; t_hour := h; t_min := mi; t_sec := s; t_nsec := ns |}.
+
+Definition check_decodeb : P (list Z) :=
+  kind <- pint ;; cur <- pbool ;; n <- pint ;; body <- pstring ;; wf <- pbool ;; iseq <- pint ;; it <- ptm ;;
+  outcome <- pint ;; oseq <- pint ;; ot <- ptm ;; otxn <- pint ;; otxnq <- pint ;;
+  let name := if cur then 0 else n in
+  (* the model's reading: (outcome, seq, time, txnMax, txnMaxQueried) *)
+  let m : option (Z * Z * tm * Z * Z) :=
+    if kind =? 3 then
+      match decode_changeset_gen body with
+      | Some (DOk (sq, t)) => Some (0, fetched_seq kind name sq, t, 0, 0)
+      | Some DErr => Some (1, 0, zero_tm, 0, 0)
+      | Some DPanic => Some (2, 0, zero_tm, 0, 0)
+      | None => None
+      end
+    else
+      match decode_interval_gen body with
+      | Some (DOk st) => Some (0, fetched_seq kind name (i_seq st), i_time st, i_txn st, i_txnq st)
+      | Some DErr => Some (1, 0, zero_tm, 0, 0)
+      | Some DPanic => Some (2, 0, zero_tm, 0, 0)
+      | None => None
+      end in
+  let j1 :=
+    match m with
+    | Some (mo, ms, mt, mx, mq) =>
+        (mo =? outcome) &&
+        (if outcome =? 0 then (ms mod two64 =? oseq mod two64) && tm_eqb mt ot && (mx =? otxn) && (mq =? otxnq) else true)
+    | None => false
+    end in
+  (* the property: a file the server writes is read as what it says *)
+  let j2 :=
+    if wf then (outcome =? 0) && (oseq =? fetched_seq kind name iseq) && tm_eqb ot it else true in
+  ret (code_if j1 1 ++ code_if j2 2)%list.
+
 Definition check_case (t : toks) : list Z :=
   match t with
   | tag :: rest =>
       let p := if tag =? 2 then check_search     (* tags are zigzag-encoded: 1 -> 2, 2 -> 4, 3 -> 6 *)
                else if tag =? 4 then check_path
                else if tag =? 6 then check_decode
+               else if tag =? 8 then check_decodeb
                else pfail in
       match parse_all p rest with Some codes => codes | None => [0] end
   | [] => [0]
